@@ -8,10 +8,10 @@
 package main
 
 import (
-	"time"
 	"context"
 	"fmt"
 	"strings"
+	"time"
 
 	capnp "capnproto.org/go/capnp/v3"
 	"capnproto.org/go/capnp/v3/internal/verif/vlib"
@@ -21,12 +21,13 @@ import (
 // ---- world ----
 
 const (
-	hR  = 0 // hook behind c0, c1, weak
-	hRP = 1 // promise hook behind pc, pc1
-	hR2 = 2 // hook behind t (fulfilment target)
+	hR   = 0 // hook behind c0, c1, weak
+	hRP  = 1 // promise hook behind pc, pc1
+	hR2  = 2 // hook behind t (fulfilment target)
+	hRP2 = 3 // second promise hook behind pd (fulfilled with the promised client pc)
 )
 
-var hookNames = []string{"R", "RP", "R2"}
+var hookNames = []string{"R", "RP", "R2", "RP2"}
 
 type event struct {
 	kind string // send-enter send-exit brand shutdown opstart opend
@@ -37,7 +38,7 @@ type event struct {
 
 type world struct {
 	ev    []event
-	hooks [3]*recHook
+	hooks [4]*recHook
 	c0    *capnp.Client
 	c1    *capnp.Client
 	w     *capnp.WeakClient
@@ -45,6 +46,8 @@ type world struct {
 	pc1   *capnp.Client
 	cp    *capnp.ClientPromise
 	t     *capnp.Client
+	pd    *capnp.Client
+	cp2   *capnp.ClientPromise
 	curOp map[int]int // thread id -> op id running
 }
 
@@ -112,13 +115,18 @@ const (
 	opRelT
 	opResolvePC1
 	opSendC0
+	opRelPD
+	opSendPD
+	opAddRefPD
+	opFulfill2PC
 	nOps
 )
 
 var opNames = []string{"Release(c0)", "Release(c1)", "tmp=AddRef(c1)", "Release(tmp)", "tmp=Weak.AddRef()", "SendCall(c1)", "RecvCall(c0)", "State(c1)",
-	"Release(pc)", "Release(pc1)", "SendCall(pc1)", "tmp=AddRef(pc1)", "Fulfill(t)", "Fulfill(nil)", "Release(t)", "Resolve(pc1)", "SendCall(c0)"}
+	"Release(pc)", "Release(pc1)", "SendCall(pc1)", "tmp=AddRef(pc1)", "Fulfill(t)", "Fulfill(nil)", "Release(t)", "Resolve(pc1)", "SendCall(c0)",
+	"Release(pd)", "SendCall(pd)", "tmp=AddRef(pd)", "Fulfill2(pc)"}
 
-// handle used by an op (for the ownership rule), -1 none
+// handles
 const (
 	hdC0 = iota
 	hdC1
@@ -126,8 +134,32 @@ const (
 	hdPC1
 	hdT
 	hdW
+	hdPD
 	nHandles
 )
+
+// families of handles
+const (
+	famR = iota
+	famP
+	famT
+	famP2
+	nFam
+)
+
+func handleFam(h int) int {
+	switch h {
+	case hdC0, hdC1, hdW:
+		return famR
+	case hdPC, hdPC1:
+		return famP
+	case hdT:
+		return famT
+	case hdPD:
+		return famP2
+	}
+	return -1
+}
 
 func opHandle(o int) int {
 	switch o {
@@ -135,7 +167,7 @@ func opHandle(o int) int {
 		return hdC0
 	case opRelC1, opAddRefC1, opSendC1, opStateC1:
 		return hdC1
-	case opRelPC:
+	case opRelPC, opFulfill2PC:
 		return hdPC
 	case opRelPC1, opSendPC1, opAddRefPC1, opResolvePC1:
 		return hdPC1
@@ -143,12 +175,18 @@ func opHandle(o int) int {
 		return hdT
 	case opWeakAddRef:
 		return hdW
+	case opRelPD, opSendPD, opAddRefPD:
+		return hdPD
 	}
 	return -1
 }
 
 func isRelease(o int) bool {
-	return o == opRelC0 || o == opRelC1 || o == opRelPC || o == opRelPC1 || o == opRelT
+	return o == opRelC0 || o == opRelC1 || o == opRelPC || o == opRelPC1 || o == opRelT || o == opRelPD
+}
+
+func isCall(o int) bool {
+	return o == opSendC0 || o == opSendC1 || o == opRecvC0 || o == opSendPC1 || o == opSendPD || o == opStateC1
 }
 
 type program [][]int
@@ -165,44 +203,65 @@ func (p program) String() string {
 	return strings.Join(parts, " || ")
 }
 
-// valid applies the API-contract filter (see file comment in DESIGN §5 C10):
-// a handle released by one thread is not used by another thread; at most one
-// Fulfill per program; Resolve only when some Fulfill exists; t is released
-// only by the fulfilling thread after Fulfill (or anywhere if no Fulfill(t)).
+// valid applies the API-contract filter: at most one Fulfill per promise;
+// Resolve only when a Fulfill exists and never before it in the same thread;
+// the client passed to a Fulfill must stay alive while Fulfill runs, so it is
+// released only by the fulfilling thread, after the Fulfill (t for Fulfill(t),
+// pc for Fulfill2(pc)).  A handle may be released by one thread while another
+// thread calls through it: the Client is documented as safe for concurrent
+// use, and the call then either is delivered or fails as "released".
 func (p program) valid() bool {
-	fulfills := 0
-	fulfillThread := -1
+	nF, nF2 := 0, 0
+	fThread, f2Thread := -1, -1
+	fulfillT := false
 	for ti, th := range p {
 		for _, o := range th {
-			if o == opFulfillT || o == opFulfillNil {
-				fulfills++
-				fulfillThread = ti
+			switch o {
+			case opFulfillT, opFulfillNil:
+				nF++
+				fThread = ti
+				if o == opFulfillT {
+					fulfillT = true
+				}
+			case opFulfill2PC:
+				nF2++
+				f2Thread = ti
 			}
 		}
 	}
-	if fulfills > 1 {
+	if nF > 1 || nF2 > 1 {
 		return false
 	}
 	for ti, th := range p {
-		seenFul := false
+		seenF, seenF2 := false, false
 		for _, o := range th {
-			if o == opFulfillT || o == opFulfillNil {
-				seenFul = true
-			}
-			if o == opResolvePC1 && (fulfills == 0 || (ti == fulfillThread && !seenFul)) {
-				return false
-			}
-			if o == opRelT && fulfills > 0 && (ti != fulfillThread || !seenFul) {
-				return false
-			}
-			if isRelease(o) {
+			switch o {
+			case opFulfillT, opFulfillNil:
+				seenF = true
+			case opFulfill2PC:
+				seenF2 = true
+			case opResolvePC1:
+				if nF == 0 || (ti == fThread && !seenF) {
+					return false
+				}
+			case opRelT:
+				if fulfillT && (ti != fThread || !seenF) {
+					return false
+				}
+			case opRelPC:
+				if nF2 > 0 && (ti != f2Thread || !seenF2) {
+					return false
+				}
+			case opAddRefC1, opAddRefPC1, opAddRefPD:
+				// AddRef racing with a Release of the same handle by another
+				// thread is a plain use-after-release race of the caller
 				h := opHandle(o)
 				for tj, th2 := range p {
 					if tj == ti {
 						continue
 					}
 					for _, o2 := range th2 {
-						if opHandle(o2) == h {
+						if isRelease(o2) && opHandle(o2) == h {
 							return false
 						}
 					}
@@ -219,6 +278,11 @@ type opResult struct {
 	info           string // "ok", "released", "null", "weak-fail", ...
 }
 
+type tmpRef struct {
+	c   *capnp.Client
+	fam int
+}
+
 // run executes the program under the scheduler (as thread 0 body).
 func runProgram(p program, w *world, res [][]opResult) {
 	for i := range w.hooks {
@@ -231,8 +295,9 @@ func runProgram(p program, w *world, res [][]opResult) {
 	w.pc, w.cp = capnp.NewPromisedClient(w.hooks[hRP])
 	w.pc1 = w.pc.AddRef()
 	w.t = capnp.NewClient(w.hooks[hR2])
+	w.pd, w.cp2 = capnp.NewPromisedClient(w.hooks[hRP2])
 	body := func(ti int) {
-		var tmp []*capnp.Client
+		var tmp []tmpRef
 		for pi, o := range p[ti] {
 			opid := ti*10 + pi
 			w.curOp[vsched.Tid()] = opid
@@ -275,7 +340,7 @@ func answerClass(ans *capnp.Answer) string {
 	return "err:" + s
 }
 
-func doOp(o int, w *world, tmp *[]*capnp.Client, r *opResult) {
+func doOp(o int, w *world, tmp *[]tmpRef, r *opResult) {
 	ctx := context.Background()
 	meth := capnp.Method{InterfaceID: 1, MethodID: 2}
 	send := func(c *capnp.Client) {
@@ -283,27 +348,35 @@ func doOp(o int, w *world, tmp *[]*capnp.Client, r *opResult) {
 		r.info = answerClass(ans)
 		rel()
 	}
+	addref := func(c *capnp.Client, fam int) {
+		d := c.AddRef()
+		if d != nil {
+			*tmp = append(*tmp, tmpRef{d, fam})
+			r.info = "ok"
+		} else {
+			r.info = "nil"
+		}
+	}
 	switch o {
 	case opRelC0:
 		w.c0.Release()
 	case opRelC1:
 		w.c1.Release()
 	case opAddRefC1:
-		*tmp = append(*tmp, w.c1.AddRef())
-		r.info = "ok"
+		addref(w.c1, famR)
 	case opRelTmp:
 		if n := len(*tmp); n > 0 {
 			c := (*tmp)[n-1]
 			*tmp = (*tmp)[:n-1]
-			r.info = "rel"
-			c.Release()
+			r.info = fmt.Sprintf("rel%d", c.fam)
+			c.c.Release()
 		} else {
 			r.info = "none"
 		}
 	case opWeakAddRef:
 		c, ok := w.w.AddRef()
 		if ok && c != nil {
-			*tmp = append(*tmp, c)
+			*tmp = append(*tmp, tmpRef{c, famR})
 			r.info = "ok"
 		} else {
 			r.info = "weak-fail"
@@ -326,13 +399,7 @@ func doOp(o int, w *world, tmp *[]*capnp.Client, r *opResult) {
 	case opSendPC1:
 		send(w.pc1)
 	case opAddRefPC1:
-		c := w.pc1.AddRef()
-		if c != nil {
-			*tmp = append(*tmp, c)
-			r.info = "ok"
-		} else {
-			r.info = "nil"
-		}
+		addref(w.pc1, famP)
 	case opFulfillT:
 		w.cp.Fulfill(w.t)
 	case opFulfillNil:
@@ -345,6 +412,14 @@ func doOp(o int, w *world, tmp *[]*capnp.Client, r *opResult) {
 		} else {
 			r.info = "ok"
 		}
+	case opRelPD:
+		w.pd.Release()
+	case opSendPD:
+		send(w.pd)
+	case opAddRefPD:
+		addref(w.pd, famP2)
+	case opFulfill2PC:
+		w.cp2.Fulfill(w.pc)
 	}
 }
 
@@ -378,9 +453,14 @@ func (r *rejRecorder) class() string {
 
 // ---- oracle ----
 
-// judge replays the event log against the reference-count model.
-// Families of handles: famR (c0,c1,tmp from c1/weak) on hook R; famP (pc,pc1,
-// tmp from pc1) on RP until fulfilment, then on the target; t on R2.
+type span struct{ start, end int }
+
+const never = 1 << 30
+
+// judge replays the event log against the reference-count model.  Families:
+// famR (c0, c1, tmp from c1 / weak) on hook R; famP (pc, pc1, tmp from pc1) on
+// promise hook RP until Fulfill(t|nil); famT (t) on R2; famP2 (pd, tmp from pd)
+// on promise hook RP2 until Fulfill2(pc), which links it to wherever famP goes.
 func judge(p program, w *world, res [][]opResult, vr *vsched.Result) (string, string) {
 	if len(vr.Panics) > 0 {
 		return "panic", "panic in a controlled thread: " + vr.Panics[0]
@@ -392,72 +472,86 @@ func judge(p program, w *world, res [][]opResult, vr *vsched.Result) (string, st
 		return "deadlock", "threads blocked forever: " + strings.Join(vr.Blocked, " | ")
 	}
 	opOf := func(id int) int { return p[id/10][id%10] }
-	liveR, liveP, liveT := 2, 2, 1
-	tmpFam := map[int][]int{} // thread -> stack of family ids (0=R,1=P)
-	fulfillStarted, fulfillDone := false, false
-	fulfillTarget := -1 // 0 = t, 1 = nil
-	inflight := [3]int{}
-	shut := [3]int{}
-	relInThread := map[[2]int]bool{} // (thread, handle) released earlier in this thread
+	spans := map[int]span{}
+	for i, e := range w.ev {
+		switch e.kind {
+		case "opstart":
+			spans[e.op] = span{i, never}
+		case "opend":
+			s := spans[e.op]
+			s.end = i
+			spans[e.op] = s
+		}
+	}
+	// spans of the fulfil ops and of every Release per handle
+	fP, fP2 := span{never, never}, span{never, never}
+	pTarget := -1 // 0: t, 1: nil
+	relSpan := map[int][]struct {
+		thread int
+		s      span
+	}{}
+	for ti, th := range p {
+		for pi, o := range th {
+			s := spans[ti*10+pi]
+			switch o {
+			case opFulfillT:
+				fP, pTarget = s, 0
+			case opFulfillNil:
+				fP, pTarget = s, 1
+			case opFulfill2PC:
+				fP2 = s
+			}
+			if isRelease(o) {
+				relSpan[opHandle(o)] = append(relSpan[opHandle(o)], struct {
+					thread int
+					s      span
+				}{ti, s})
+			}
+		}
+	}
+	live := [nFam]int{2, 2, 1, 1}
+	tmpFam := map[int][]int{}
+	inflight := [4]int{}
+	shut := [4]int{}
+	relDone := map[[2]int]bool{}
 	for i, e := range w.ev {
 		switch e.kind {
 		case "opstart":
 			o := opOf(e.op)
 			ti := e.op / 10
-			switch o {
-			case opRelC0, opRelC1:
-				if !relInThread[[2]int{ti, opHandle(o)}] {
-					liveR--
-					relInThread[[2]int{ti, opHandle(o)}] = true
+			if isRelease(o) {
+				h := opHandle(o)
+				if !relDone[[2]int{0, h}] {
+					relDone[[2]int{0, h}] = true
+					live[handleFam(h)]--
 				}
-			case opRelPC, opRelPC1:
-				if !relInThread[[2]int{ti, opHandle(o)}] {
-					liveP--
-					relInThread[[2]int{ti, opHandle(o)}] = true
-				}
-			case opRelT:
-				if !relInThread[[2]int{ti, hdT}] {
-					liveT--
-					relInThread[[2]int{ti, hdT}] = true
-				}
-			case opRelTmp:
+			}
+			if o == opRelTmp {
 				if st := tmpFam[ti]; len(st) > 0 {
-					if st[len(st)-1] == 0 {
-						liveR--
-					} else {
-						liveP--
-					}
+					live[st[len(st)-1]]--
 					tmpFam[ti] = st[:len(st)-1]
 				}
-			case opFulfillT:
-				fulfillStarted = true
-				fulfillTarget = 0
-			case opFulfillNil:
-				fulfillStarted = true
-				fulfillTarget = 1
 			}
 		case "opend":
 			o := opOf(e.op)
 			ti := e.op / 10
 			r := res[ti][e.op%10]
 			switch o {
-			case opAddRefC1:
-				if r.panicMsg == "" {
-					liveR++
-					tmpFam[ti] = append(tmpFam[ti], 0)
-				}
-			case opWeakAddRef:
-				if r.info == "ok" {
-					liveR++
-					tmpFam[ti] = append(tmpFam[ti], 0)
+			case opAddRefC1, opWeakAddRef:
+				if r.panicMsg == "" && r.info == "ok" {
+					live[famR]++
+					tmpFam[ti] = append(tmpFam[ti], famR)
 				}
 			case opAddRefPC1:
 				if r.panicMsg == "" && r.info == "ok" {
-					liveP++
-					tmpFam[ti] = append(tmpFam[ti], 1)
+					live[famP]++
+					tmpFam[ti] = append(tmpFam[ti], famP)
 				}
-			case opFulfillT, opFulfillNil:
-				fulfillDone = true
+			case opAddRefPD:
+				if r.panicMsg == "" && r.info == "ok" {
+					live[famP2]++
+					tmpFam[ti] = append(tmpFam[ti], famP2)
+				}
 			}
 		case "send-enter":
 			if shut[e.hook] > 0 {
@@ -474,37 +568,56 @@ func judge(p program, w *world, res [][]opResult, vr *vsched.Result) (string, st
 			if inflight[e.hook] > 0 {
 				return "shutdown-during-call", fmt.Sprintf("event %d: hook %s shut down while %d call(s) through it are in progress", i, hookNames[e.hook], inflight[e.hook])
 			}
+			pStarted, pDone := fP.start < i, fP.end < i
+			p2Started, p2Done := fP2.start < i, fP2.end < i
+			_ = p2Started
+			held := ""
 			switch e.hook {
 			case hR:
-				if liveR > 0 {
-					return "shutdown-with-refs/R", fmt.Sprintf("event %d: hook R shut down while %d strong reference(s) remain", i, liveR)
+				if live[famR] > 0 {
+					held = fmt.Sprintf("%d strong reference(s) to it remain", live[famR])
 				}
 			case hRP:
-				if liveP > 0 && !fulfillStarted {
-					return "shutdown-with-refs/RP", fmt.Sprintf("event %d: promise hook RP shut down while %d reference(s) remain and no Fulfill started", i, liveP)
+				if !pStarted && (live[famP] > 0 || (p2Done && live[famP2] > 0)) {
+					held = fmt.Sprintf("promised clients remain (pc family %d, pd family %d linked=%v) and no Fulfill started", live[famP], live[famP2], p2Done)
+				}
+			case hRP2:
+				if !p2Started && live[famP2] > 0 {
+					held = fmt.Sprintf("%d promised client(s) pd remain and no Fulfill2 started", live[famP2])
 				}
 			case hR2:
-				if liveT > 0 || (fulfillStarted && fulfillTarget == 0 && liveP > 0) {
-					phase := "steady"
-					if fulfillStarted && !fulfillDone {
-						phase = "fulfill-in-progress"
-					}
-					return "shutdown-with-refs/R2/" + phase, fmt.Sprintf("event %d: hook R2 shut down while references remain (t live=%d, promised refs=%d, fulfil started=%v done=%v)", i, liveT, liveP, fulfillStarted, fulfillDone)
+				switch {
+				case live[famT] > 0:
+					held = "t is still referenced"
+				case pTarget == 0 && pDone && live[famP] > 0:
+					held = fmt.Sprintf("Fulfill(t) has returned and %d promised reference(s) of pc remain", live[famP])
+				case pTarget == 0 && pDone && p2Done && live[famP2] > 0:
+					held = fmt.Sprintf("Fulfill(t) and Fulfill2(pc) have returned and %d reference(s) of pd remain", live[famP2])
 				}
+			}
+			if held != "" {
+				phase := "steady"
+				if (fP.start < i && !(fP.end < i)) || (fP2.start < i && !(fP2.end < i)) {
+					phase = "fulfill-in-progress"
+				}
+				return "shutdown-with-refs/" + hookNames[e.hook] + "/" + phase, fmt.Sprintf("event %d: hook %s shut down while %s", i, hookNames[e.hook], held)
 			}
 		}
 	}
-	_ = fulfillDone
 	// final state
-	wantR := liveR == 0
-	wantRP := fulfillStarted || liveP == 0
-	wantR2 := liveT == 0 && !(fulfillTarget == 0 && liveP > 0)
-	for h, want := range []bool{wantR, wantRP, wantR2} {
-		if want && shut[h] != 1 {
-			return "missing-shutdown", fmt.Sprintf("hook %s: all references released (model live R=%d P=%d T=%d fulfilled=%v) but Shutdown ran %d times", hookNames[h], liveR, liveP, liveT, fulfillStarted, shut[h])
+	linked2 := fP2.start != never
+	fulfilledP := fP.start != never
+	wantShut := [4]bool{}
+	wantShut[hR] = live[famR] == 0
+	wantShut[hRP] = fulfilledP || (live[famP] == 0 && !(linked2 && live[famP2] > 0))
+	wantShut[hRP2] = linked2 || live[famP2] == 0
+	wantShut[hR2] = live[famT] == 0 && !(pTarget == 0 && (live[famP] > 0 || (linked2 && live[famP2] > 0)))
+	for h := 0; h < 4; h++ {
+		if wantShut[h] && shut[h] != 1 {
+			return "missing-shutdown/" + hookNames[h], fmt.Sprintf("hook %s: nothing refers to it any more (live R=%d P=%d T=%d P2=%d, P fulfilled=%v target=%d, P2 linked=%v) but Shutdown ran %d times", hookNames[h], live[famR], live[famP], live[famT], live[famP2], fulfilledP, pTarget, linked2, shut[h])
 		}
-		if !want && shut[h] != 0 {
-			return "early-shutdown", fmt.Sprintf("hook %s shut down although references remain at the end (model live R=%d P=%d T=%d)", hookNames[h], liveR, liveP, liveT)
+		if !wantShut[h] && shut[h] != 0 {
+			return "early-shutdown/" + hookNames[h], fmt.Sprintf("hook %s shut down although references remain at the end (live R=%d P=%d T=%d P2=%d, P fulfilled=%v target=%d, P2 linked=%v)", hookNames[h], live[famR], live[famP], live[famT], live[famP2], fulfilledP, pTarget, linked2)
 		}
 	}
 	// per-op results
@@ -512,24 +625,32 @@ func judge(p program, w *world, res [][]opResult, vr *vsched.Result) (string, st
 		released := map[int]bool{}
 		for pi, o := range th {
 			r := res[ti][pi]
+			opid := ti*10 + pi
+			x := spans[opid]
 			h := opHandle(o)
 			wasReleased := released[h]
+			// a Release of the same handle by another thread that started
+			// before this op ended makes both behaviours legal
+			raced := false
+			for _, rs := range relSpan[h] {
+				if rs.thread != ti && rs.s.start < x.end {
+					raced = true
+				}
+			}
 			if isRelease(o) {
 				released[h] = true
 			}
 			if !r.started || !r.ended {
 				return "op-incomplete", fmt.Sprintf("thread %d op %s did not complete", ti, opNames[o])
 			}
-			// documented panics
+			nullP := pTarget == 1 && fP.start < x.end
+			nullP2 := fP2.start < x.end && nullP
 			if r.panicMsg != "" {
 				ok := false
-				if fulfillTarget == 1 && o == opAddRefPC1 && wasReleased && strings.Contains(r.panicMsg, "AddRef on released client") {
-					continue
-				}
 				switch o {
-				case opAddRefC1, opAddRefPC1:
+				case opAddRefC1, opAddRefPC1, opAddRefPD:
 					ok = wasReleased && strings.Contains(r.panicMsg, "AddRef on released client")
-				case opFulfillT:
+				case opFulfillT, opFulfill2PC:
 					ok = wasReleased && strings.Contains(r.panicMsg, "released client")
 				}
 				if !ok {
@@ -537,89 +658,86 @@ func judge(p program, w *world, res [][]opResult, vr *vsched.Result) (string, st
 				}
 				continue
 			}
-			nullResolved := fulfillTarget == 1 && (h == hdPC || h == hdPC1)
-			if nullResolved && wasReleased {
-				// Release on a client that has resolved to null is a documented
-				// no-op that may or may not mark the handle released, depending on
-				// whether an earlier operation observed the resolution; both the
-				// "released" and the "null" behaviour are within the contract.
-				switch o {
-				case opAddRefPC1:
-					if r.info != "nil" {
-						return "addref-null", fmt.Sprintf("thread %d: %s after Fulfill(nil): %q", ti, opNames[o], r.info)
-					}
-					continue
-				case opSendPC1:
-					if r.info != "null" && r.info != "released" {
-						return "call-result", fmt.Sprintf("thread %d op %s after Fulfill(nil)+Release: %q", ti, opNames[o], r.info)
-					}
-					continue
-				}
-			}
-			if (o == opAddRefC1 || o == opAddRefPC1) && wasReleased {
-				return "addref-after-release", fmt.Sprintf("thread %d: %s on a released handle did not panic as documented", ti, opNames[o])
-			}
 			switch o {
-			case opSendC1, opSendC0, opRecvC0:
-				want := "delivered"
+			case opAddRefC1:
 				if wasReleased {
-					want = "released"
+					return "addref-after-release", fmt.Sprintf("thread %d: %s on a released handle did not panic as documented", ti, opNames[o])
 				}
-				if r.info != want {
-					return "call-result", fmt.Sprintf("thread %d op %s: got %q want %q", ti, opNames[o], r.info, want)
+			case opAddRefPC1:
+				if wasReleased && !nullP {
+					return "addref-after-release", fmt.Sprintf("thread %d: %s on a released handle did not panic as documented", ti, opNames[o])
 				}
-				n := countSends(w, ti*10+pi, hR)
-				if (want == "delivered") != (n == 1) || countSendsOther(w, ti*10+pi, hR) != 0 {
-					return "call-delivery", fmt.Sprintf("thread %d op %s: delivered %d times to R, %d to others", ti, opNames[o], n, countSendsOther(w, ti*10+pi, hR))
+			case opAddRefPD:
+				if wasReleased && !nullP2 {
+					return "addref-after-release", fmt.Sprintf("thread %d: %s on a released handle did not panic as documented", ti, opNames[o])
 				}
-			case opSendPC1:
-				nRP, nR2, nR := countSends(w, ti*10+pi, hRP), countSends(w, ti*10+pi, hR2), countSends(w, ti*10+pi, hR)
-				if nR != 0 || nRP+nR2 > 1 {
-					return "call-delivery", fmt.Sprintf("thread %d op %s: delivered RP=%d R2=%d R=%d", ti, opNames[o], nRP, nR2, nR)
+			}
+			if !isCall(o) || o == opStateC1 {
+				continue
+			}
+			// where may the call go?
+			allowed := map[int]bool{}
+			allowNull := false
+			fam := handleFam(h)
+			var addP func()
+			addP = func() {
+				if !(fP.end < x.start) {
+					allowed[hRP] = true
 				}
-				switch {
-				case wasReleased:
-					if r.info != "released" || nRP+nR2 != 0 {
-						return "call-result", fmt.Sprintf("thread %d op %s on released handle: %q delivered=%d", ti, opNames[o], r.info, nRP+nR2)
-					}
-				case r.info == "delivered":
-					if nRP+nR2 != 1 {
-						return "call-delivery", fmt.Sprintf("thread %d op %s: answer from hook but %d deliveries recorded", ti, opNames[o], nRP+nR2)
-					}
-					if nR2 == 1 && fulfillTarget != 0 {
-						return "call-delivery", fmt.Sprintf("thread %d op %s: delivered to R2 without Fulfill(t)", ti, opNames[o])
-					}
-				case r.info == "null":
-					if fulfillTarget != 1 || nRP+nR2 != 0 {
-						return "call-result", fmt.Sprintf("thread %d op %s: null-client error without Fulfill(nil) (deliveries %d)", ti, opNames[o], nRP+nR2)
-					}
-				default:
-					return "call-result", fmt.Sprintf("thread %d op %s: unexpected result %q", ti, opNames[o], r.info)
+				if pTarget == 0 && fP.start < x.end {
+					allowed[hR2] = true
 				}
+				if pTarget == 1 && fP.start < x.end {
+					allowNull = true
+				}
+			}
+			switch fam {
+			case famR:
+				allowed[hR] = true
+			case famP:
+				addP()
+			case famP2:
+				if !(fP2.end < x.start) {
+					allowed[hRP2] = true
+				}
+				if fP2.start < x.end {
+					addP()
+				}
+			}
+			var del []int
+			for _, e := range w.ev {
+				if e.kind == "send-enter" && e.op == opid && e.info != "brand" {
+					del = append(del, e.hook)
+				}
+			}
+			if len(del) > 1 {
+				return "call-delivered-twice", fmt.Sprintf("thread %d op %s delivered %d times", ti, opNames[o], len(del))
+			}
+			switch {
+			case len(del) == 1:
+				if r.info != "delivered" {
+					return "call-result", fmt.Sprintf("thread %d op %s delivered to %s but the caller got %q", ti, opNames[o], hookNames[del[0]], r.info)
+				}
+				if wasReleased && !(allowNull) {
+					return "call-after-release-delivered", fmt.Sprintf("thread %d op %s on a handle released earlier by the same thread was delivered to %s", ti, opNames[o], hookNames[del[0]])
+				}
+				if !allowed[del[0]] {
+					return "call-delivery", fmt.Sprintf("thread %d op %s delivered to %s, allowed %v", ti, opNames[o], hookNames[del[0]], allowed)
+				}
+			case r.info == "released":
+				if !wasReleased && !raced {
+					return "call-result", fmt.Sprintf("thread %d op %s failed as 'released' although the handle was not released", ti, opNames[o])
+				}
+			case r.info == "null":
+				if !allowNull {
+					return "call-result", fmt.Sprintf("thread %d op %s failed as 'null client' although nothing resolved the handle to null", ti, opNames[o])
+				}
+			default:
+				return "call-result", fmt.Sprintf("thread %d op %s: unexpected result %q with no delivery", ti, opNames[o], r.info)
 			}
 		}
 	}
 	return "", ""
-}
-
-func countSends(w *world, opid, hook int) int {
-	n := 0
-	for _, e := range w.ev {
-		if e.kind == "send-enter" && e.op == opid && e.hook == hook && e.info != "brand" {
-			n++
-		}
-	}
-	return n
-}
-
-func countSendsOther(w *world, opid, hook int) int {
-	n := 0
-	for _, e := range w.ev {
-		if e.kind == "send-enter" && e.op == opid && e.hook != hook && e.info != "brand" {
-			n++
-		}
-	}
-	return n
 }
 
 func outcomeClass(w *world, res [][]opResult) string {
@@ -642,7 +760,17 @@ func outcomeClass(w *world, res [][]opResult) string {
 
 // ---- program enumeration ----
 
-func seqs(maxLen int) [][]int {
+var allOps []int
+
+func init() {
+	for o := 0; o < nOps; o++ {
+		allOps = append(allOps, o)
+	}
+}
+
+func seqs(maxLen int) [][]int { return seqsOver(maxLen, allOps) }
+
+func seqsOver(maxLen int, alphabet []int) [][]int {
 	var out [][]int
 	var rec func(cur []int)
 	rec = func(cur []int) {
@@ -652,7 +780,7 @@ func seqs(maxLen int) [][]int {
 		if len(cur) == maxLen {
 			return
 		}
-		for o := 0; o < nOps; o++ {
+		for _, o := range alphabet {
 			rec(append(cur, o))
 		}
 	}
@@ -669,8 +797,10 @@ func lessEq(a, b []int) bool {
 	return len(a) <= len(b)
 }
 
-func programs(threads, maxLen int) []program {
-	ss := seqs(maxLen)
+func programs(threads, maxLen int) []program { return programsOver(threads, maxLen, allOps) }
+
+func programsOver(threads, maxLen int, alphabet []int) []program {
+	ss := seqsOver(maxLen, alphabet)
 	var out []program
 	var rec func(cur program)
 	rec = func(cur program) {
@@ -758,13 +888,13 @@ func renderEvents(p program, w *world) string {
 
 func main() {
 	vlib.Main(vlib.Spec{
-		ID:    "C10",
-		Level: "model_checking",
+		ID:          "C10",
+		Level:       "model_checking",
 		CaseTimeout: 30 * time.Minute,
-		Rule:  "programs = all valid assignments of operation sequences (17-op alphabet over handles c0,c1,weak on hook R; pc,pc1 + ClientPromise on promise hook RP; t on hook R2) to 1-3 symmetric threads; for each program all schedules of the real capability.go up to the preemption bound under the controlled scheduler; oracle = reference-count model stepped from the recorded op/hook event log. A program is non-trivial if it had more than one schedule or more than one distinct outcome. states = sum over programs of distinct scheduling configurations (enabled set x pending operations); transitions = scheduling steps executed; traces = executions, all on the implementation.",
+		Rule:        "programs = all valid assignments of operation sequences (21-op alphabet over handles c0,c1,weak on hook R; pc,pc1 + ClientPromise on promise hook RP; t on hook R2) to 1-3 symmetric threads; for each program all schedules of the real capability.go up to the preemption bound under the controlled scheduler; oracle = reference-count model stepped from the recorded op/hook event log. A program is non-trivial if it had more than one schedule or more than one distinct outcome. states = sum over programs of distinct scheduling configurations (enabled set x pending operations); transitions = scheduling steps executed; traces = executions, all on the implementation.",
 		Assumptions: []string{
 			"scheduling points at every sync operation (mutex lock, channel close/receive/select, go) are sufficient because capability.go has no unsynchronised shared accesses (checked separately by a free-running -race pass, which decides nothing)",
-			"API contract filter: a handle released by one thread is not used by another; at most one Fulfill; the fulfilment target is released only by the fulfilling thread afterwards",
+			"API contract filter: at most one Fulfill per promise; the client passed to a Fulfill is released only by the fulfilling thread afterwards; AddRef never races with a Release of the same handle; a Release may race with calls through the same handle (both outcomes legal)",
 		},
 		Families: func(tier string) []vlib.Family {
 			if tier == "thorough" {
@@ -772,12 +902,17 @@ func main() {
 					family("seq<=5", programs(1, 5), vsched.Config{MaxPreempt: 0, MaxDev: 0, MaxSteps: 5000}),
 					family("par2x2-pb3", programs(2, 2), vsched.Config{MaxPreempt: 3, MaxDev: 0, MaxSteps: 5000}),
 					family("par3x1-pb3", programs(3, 1), vsched.Config{MaxPreempt: 3, MaxDev: 0, MaxSteps: 5000}),
+					family("par3x2-R-pb2", programsOver(3, 2, []int{opRelC0, opRelC1, opAddRefC1, opRelTmp, opWeakAddRef, opSendC1, opRecvC0, opStateC1, opSendC0}), vsched.Config{MaxPreempt: 2, MaxDev: 0, MaxSteps: 5000}),
+					family("par3x2-P-pb2", programsOver(3, 2, []int{opRelPC1, opSendPC1, opAddRefPC1, opRelTmp, opFulfillT, opRelT, opSendPD, opFulfill2PC}), vsched.Config{MaxPreempt: 2, MaxDev: 0, MaxSteps: 5000}),
 				}
 			}
 			return []vlib.Family{
 				family("seq<=4", programs(1, 4), vsched.Config{MaxPreempt: 0, MaxDev: 0, MaxSteps: 5000}),
 				family("par2x2-pb2", programs(2, 2), vsched.Config{MaxPreempt: 2, MaxDev: 0, MaxSteps: 5000}),
 				family("par3x1-pb2", programs(3, 1), vsched.Config{MaxPreempt: 2, MaxDev: 0, MaxSteps: 5000}),
+				// three threads with up to two operations each over the operations on the
+				// plain capability R: last release racing with a call in progress and a weak upgrade
+				family("par3x2-R-pb2", programsOver(3, 2, []int{opRelC0, opRelC1, opRelTmp, opWeakAddRef, opSendC1}), vsched.Config{MaxPreempt: 2, MaxDev: 0, MaxSteps: 5000}),
 			}
 		},
 	})
